@@ -74,7 +74,8 @@ func (u *UnitDefinition) FormatLongFloat(amount float64, displayZero bool) strin
 	return formatNumberUnitLong(amount, u, displayZero)
 }
 
-func formatNumberUnitShort[T NumberType](amount T, unit *UnitDefinition, displayZero bool) string {
+// formatNumber renders the amount without trailing fractional zeros, in the form the parser reads back.
+func formatNumber[T NumberType](amount T) string {
 	var formatString string
 	switch any(amount).(type) {
 	case int64:
@@ -87,6 +88,11 @@ func formatNumberUnitShort[T NumberType](amount T, unit *UnitDefinition, display
 		// Only trim the zeros of the fractional part, then a dangling decimal point.
 		formatted = strings.TrimRight(strings.TrimRight(formatted, "0"), ".")
 	}
+	return formatted
+}
+
+func formatNumberUnitShort[T NumberType](amount T, unit *UnitDefinition, displayZero bool) string {
+	formatted := formatNumber(amount)
 	switch {
 	case amount == 1 || amount == -1:
 		return formatted + unit.NameShortSingular()
@@ -100,20 +106,14 @@ func formatNumberUnitShort[T NumberType](amount T, unit *UnitDefinition, display
 }
 
 func formatNumberUnitLong[T NumberType](amount T, unit Unit, displayZero bool) string {
-	var formatString string
-	switch any(amount).(type) {
-	case int64:
-		formatString = "%d"
-	case float64:
-		formatString = "%f"
-	}
+	formatted := formatNumber(amount)
 	switch {
 	case amount == 1 || amount == -1:
-		return fmt.Sprintf(formatString, amount) + unit.NameLongSingular()
+		return formatted + unit.NameLongSingular()
 	case amount != 0:
-		return fmt.Sprintf(formatString, amount) + unit.NameLongPlural()
+		return formatted + unit.NameLongPlural()
 	case displayZero:
-		return fmt.Sprintf(formatString, amount) + unit.NameLongPlural()
+		return formatted + unit.NameLongPlural()
 	default:
 		return ""
 	}
